@@ -53,7 +53,7 @@ def container_family(rep, tier, rng, gts):
         chunk = rows[bi:bi + 6]
         vcf = render_vcf(["a", "b", "c"], chunk)
         add("vcf", chunk, vcf, [[g.encode() for g in r] for r in chunk], "vcf GT-only " + ";".join(",".join(r) for r in chunk))
-        vcf2 = render_vcf(["a", "b", "c"], chunk, extra_fields=True, dot_fields=True)
+        vcf2 = render_vcf(["a", "b", "c"], chunk, extra_fields=True, dot_fields=True, missing_extra=(bi % 12 == 0))
         add("vcf", chunk, vcf2, [[g.encode() for g in r] for r in chunk], "vcf GT:DP:GQ " + ";".join(",".join(r) for r in chunk))
         vecs = [[gt_vector(g, max(ploidy(x) for x in r)) for g in r] for r in chunk]
         for nm, v in (("bcf(htslib layout)", vcf), ("bcf(htslib layout, GT:DP:GQ)", vcf2)):
